@@ -515,14 +515,14 @@ func (s *State) strEq(x, y Value) Value {
 		if xabs {
 			tx = ax.Id
 		} else if str, ok := s.concreteStr(x); ok {
-			tx = s.W.internStr(str)
+			tx = s.internStr(str)
 		} else {
 			s.abort("abstract vs symbolic-byte string comparison")
 		}
 		if yabs {
 			ty = ay.Id
 		} else if str, ok := s.concreteStr(y); ok {
-			ty = s.W.internStr(str)
+			ty = s.internStr(str)
 		} else {
 			s.abort("abstract vs symbolic-byte string comparison")
 		}
